@@ -45,6 +45,50 @@ def node_path(fn, t):
     return S(t, d)
 
 
+def iter_locks(ctx, fx):
+    ctx.rule("C10.begin-locks-what-it-returns",
+             "edge_begin / in_edge_begin (all three graph classes, every flavour): the loop that acquires the neighbours walks "
+             "exactly the container range from which the returned filter iterator is built, and tests the edge direction the "
+             "filter keeps (is_in_edge <-> isInEdge(), is_out_edge <-> !isInEdge()); otherwise an iteration over the returned "
+             "edges holds neighbours it never locked")
+    n = 0
+    for cls in CLASSES:
+        for f in fx.functions:
+            if f.get("cls") != cls or f["kind"] != "inst" or f["name"] not in ("edge_begin", "in_edge_begin"):
+                continue
+            fn = ctx.fn(f)
+            al = fn.aliases()
+            rets = [e for _, e in fn.events(lambda e: e["k"] == "ret")]
+            mk = None
+            for e in rets:
+                for x in walk(e.get("e")):
+                    if isinstance(x, dict) and x.get("k") == "call" and x.get("name") == "make_filter_iterator" and len(x.get("a", [])) == 3:
+                        mk = x
+            acq = [e for _, e in fn.events(lambda e: e.get("k") == "call" and e.get("name") == "acquire" and "first()" in S(e.get("recv") or {}, al))]
+            if mk is None or not acq:
+                continue        # forwarding overloads (undirected in_edge_begin -> edge_begin) and flavours without neighbour locking
+            n += 1
+            det = []
+            rng = (S(mk["a"][1], al), S(mk["a"][2], al))
+            kind = S(mk["a"][0], al)
+            inits = {e["n"]: S(e.get("init"), al) for _, e in fn.events(lambda e: e.get("k") == "decl" and "init" in e)}
+            loop = (inits.get("ii"), inits.get("ee"))
+            if None in loop:
+                # any two iterator locals initialised from the node
+                its = [v for k, v in inits.items() if v and re.search(r"->(in_edge_)?(begin|end)\(\)$", v)]
+                loop = tuple(its[:2]) if len(its) >= 2 else loop
+            if loop != rng:
+                det.append("neighbours are acquired over [%s, %s) but the returned iterator ranges over [%s, %s)" % (loop + rng))
+            conds = [S(fn.branch(b)[0], al) + ("" if fn.branch(b)[1] else "/neg") for b in fn.blocks if fn.branch(b)]
+            want_in = "is_in_edge" in kind
+            dirl = [c for c in conds if "isInEdge()" in c]
+            if not dirl:
+                det.append("the locking loop does not test the edge direction")
+            ctx.ob("C10.begin-locks-what-it-returns", cls.split("::")[-1] + "::" + f["name"], not det, "; ".join(det), fn.loc(),
+                   f["key"][-70:], fnkey=f["key"])
+    ctx.floor("edge_begin/in_edge_begin with neighbour locking", n, 10)
+
+
 def run(ctx):
     ctx.explanation = EXPL
     fx = ctx.load("drv_morph")
@@ -160,6 +204,7 @@ def run(ctx):
     ctx.floor("method x flavour cells compared across implementations", n, 40)
     defaults(ctx, fx)
     lifecycle(ctx, fx)
+    iter_locks(ctx, fx)
 
 
 def endpoints(ctx, fn, f, fl, site):
